@@ -209,10 +209,11 @@ def unstring_annotation(node: ast.expr, ctx:'model.Documentable', section:str='a
     """
     try:
         expr = _AnnotationStringParser().visit(node)
-    except (SyntaxError, ValueError) as ex:
+    except (SyntaxError, ValueError, RecursionError, MemoryError) as ex:
         module = ctx.module
         assert module is not None
-        module.report(f'syntax error in {section}: {ex}', lineno_offset=node.lineno, section=section)
+        # (a node built by the analysis itself, like the value of an augmented assignment, has no position)
+        module.report(f'syntax error in {section}: {ex}', lineno_offset=getattr(node, 'lineno', 0), section=section)
         return node
     else:
         assert isinstance(expr, ast.expr), expr
